@@ -423,7 +423,7 @@ func genTruth(t *rapid.T, depth int, pure bool, marker *int) *ref.Node {
 func TestC06Nested(t *testing.T) {
 	run := h.Begin("C06", "nested", "rapid: nested expressions of depth 1-4 mixing the six operators, with recording host calls 'rec(i)' and local assignments '$p = ..' placed in conditions and ?:-branches (never under the right operand of && || ??, whose evaluation the statement leaves open); oracle: a store-passing reference evaluation (result = selected leaf unchanged or the computed boolean; ordered trace of markers; which locals are set); non-trivial: nesting depth >= 2; distinct by text")
 	defer run.End(t)
-	h.RapidSetup(h.N(6000, 500000), "c06nested")
+	h.RapidSetup(h.N(6000, 3000000), "c06nested")
 	rapid.Check(t, func(rt *rapid.T) {
 		marker := 0
 		depth := rapid.IntRange(1, 4).Draw(rt, "depth")
